@@ -9,11 +9,15 @@ import (
 	"fmt"
 	"math/big"
 	"net"
+	"os"
+	"time"
 
 	"github.com/coredhcp/coredhcp/plugins/allocators"
 
 	"verifmc/ev"
 	"verifmc/reg"
+	"verifmc/sched"
+	"verifmc/verifsched"
 )
 
 func init() {
@@ -211,6 +215,98 @@ func aliasing(r *ev.Run) {
 	}
 }
 
+// concurrent: Offset and AddPrefixes are called from several goroutines at once in the server
+// (allocator index computations happen outside the allocator lock). Two threads, each one call
+// with its own operands, under ALL schedules up to 2 preemptions at statement granularity
+// (this check is built with plugins/allocators instrumented): every result equals math/big.
+func concurrent(r *ev.Run) {
+	if os.Getenv("VERIF_SCHED") != "1" {
+		r.Capped("concurrent callers skipped: binary not built with the instrumentation overlay")
+		return
+	}
+	type call struct {
+		fn   string
+		a, b *big.Int
+		n    uint64
+		p    int
+	}
+	h := func(s string) *big.Int { v, _ := new(big.Int).SetString(s, 16); return v }
+	calls := []call{
+		{"offset", h("20010db8000001000500000000000000"), h("20010db8000001000000000000000000"), 0, 72},
+		{"offset", h("20010db8000000050000000000000000"), h("20010db8000000000000000000000000"), 0, 64},
+		{"offset", h("ffffffffffffffffffffffffffffffff"), h("00000000000000000000000000000000"), 0, 1},
+		{"add", h("20010db8000000000000000000000000"), nil, 5, 64},
+		{"add", h("ffffffffffffffff0000000000000000"), nil, 1, 64},
+	}
+	eval := func(c call) string {
+		if c.fn == "offset" {
+			o, err := allocators.Offset(toIP(c.a), toIP(c.b), c.p)
+			return fmt.Sprint(o, err != nil)
+		}
+		ip, err := allocators.AddPrefixes(toIP(c.a), c.n, uint64(c.p))
+		return fmt.Sprint(ip, err != nil)
+	}
+	want := func(c call) string {
+		size := new(big.Int).Lsh(one, uint(128-c.p))
+		if c.fn == "offset" {
+			q := new(big.Int).Div(new(big.Int).Sub(maskTo(c.a, c.p), maskTo(c.b, c.p)), size)
+			if q.Cmp(two64) >= 0 {
+				return fmt.Sprint(0, true)
+			}
+			return fmt.Sprint(q.Uint64(), false)
+		}
+		s := new(big.Int).Add(c.a, new(big.Int).Mul(new(big.Int).SetUint64(c.n), size))
+		if s.Cmp(two128) >= 0 {
+			return fmt.Sprint(net.IP(nil), true)
+		}
+		return fmt.Sprint(toIP(s), false)
+	}
+	var total, steps int64
+	for i := range calls {
+		for j := range calls {
+			if i == j {
+				continue
+			}
+			ci, cj := calls[i], calls[j]
+			name := fmt.Sprintf("%s(%d)||%s(%d)", ci.fn, i, cj.fn, j)
+			sc := sched.Scenario{Name: "concurrent/" + name, Setup: func(run *verifsched.Run) func(*verifsched.Run) sched.Exec {
+				var ri, rj string
+				run.Spawn("t0", func() { ri = eval(ci) })
+				run.Spawn("t1", func() { rj = eval(cj) })
+				return func(*verifsched.Run) sched.Exec {
+					var ex sched.Exec
+					ex.Outcome = ri + " | " + rj
+					if ri != want(ci) {
+						ex.Violations = append(ex.Violations, sched.Viol{Sig: "wrong-result-under-concurrency", What: fmt.Sprintf("%s(%x,%x,n=%d,p=%d) = %s while another call ran, want %s", ci.fn, ci.a, ci.b, ci.n, ci.p, ri, want(ci))})
+					}
+					if rj != want(cj) {
+						ex.Violations = append(ex.Violations, sched.Viol{Sig: "wrong-result-under-concurrency", What: fmt.Sprintf("%s(%x,%x,n=%d,p=%d) = %s while another call ran, want %s", cj.fn, cj.a, cj.b, cj.n, cj.p, rj, want(cj))})
+					}
+					return ex
+				}
+			}}
+			res := sched.Explore(sc, 2, 60*time.Second)
+			if res.EngineError != "" {
+				panic("E2 engine error in " + res.Scenario + ": " + res.EngineError)
+			}
+			total += res.Schedules
+			steps += res.Steps
+			if res.Truncated {
+				r.Capped(res.Scenario + ": time budget hit")
+			}
+			for _, f := range res.Found {
+				r.Violate("C20/"+res.Scenario+"/"+f.Sig, fmt.Sprintf("schedule %v: %s", f.Choices, f.What), map[string]interface{}{"fn": "concurrent", "scenario": res.Scenario, "schedule": f.Choices})
+			}
+			r.EvalN("concurrent/"+ci.fn+"||"+cj.fn, res.Schedules)
+		}
+	}
+	if steps < 4*total {
+		panic("E2 engine error in C20 concurrent scenarios: no scheduling points were hit (plugins/allocators not instrumented?)")
+	}
+	r.Add("schedules", total)
+	r.Add("schedule_points", steps)
+}
+
 func patterns() []*big.Int {
 	h := func(s string) *big.Int { v, _ := new(big.Int).SetString(s, 16); return v }
 	return []*big.Int{
@@ -272,7 +368,7 @@ func run(r *ev.Run) {
 		dist = thoroughDistances
 		r.Rule("thorough: base patterns extended by every single-bit, 2^k-1 and (every third) two-bit pattern of 128 bits (5 700 patterns); distances extended by 2^k-1, 2^k, 2^k+1 for k = 0..65.")
 	}
-	r.Rule("complete product: p in 0..128 x 11 base bit patterns (incl. IPv4-mapped and IPv4-compatible addresses) masked to /p x 13 block distances (0,1,2,2^8,2^32-1,2^32,2^63-1,2^63,2^64-1,2^64,2^64+1,last block,last+1) x in-block offset {0,1,size-1} x both argument orders for Offset; AddPrefixes+inverse for every distance < 2^64; every ordered pair of base patterns through one reused argument buffer (purity: same result as with fresh slices); plus complete windows n=0..300 around the 2^64 and 2^128 carries for p in {0,1,2,62..66,126,127,128}. Reference: math/big. Class = function/p-range/outcome.")
+	r.Rule("complete product: p in 0..128 x 11 base bit patterns (incl. IPv4-mapped and IPv4-compatible addresses) masked to /p x 13 block distances (0,1,2,2^8,2^32-1,2^32,2^63-1,2^63,2^64-1,2^64,2^64+1,last block,last+1) x in-block offset {0,1,size-1} x both argument orders for Offset; AddPrefixes+inverse for every distance < 2^64; every ordered pair of base patterns through one reused argument buffer (purity: same result as with fresh slices); two concurrent callers (every ordered pair of 5 representative calls) under all schedules up to 2 preemptions at statement granularity; plus complete windows n=0..300 around the 2^64 and 2^128 carries for p in {0,1,2,62..66,126,127,128}. Reference: math/big. Class = function/p-range/outcome.")
 	r.Assume("values outside the listed bit patterns / distances are not explored; only carry/borrow/shift shapes are exhaustive")
 	seenCase := map[string]bool{}
 	for p := 0; p <= 128; p++ {
@@ -304,6 +400,7 @@ func run(r *ev.Run) {
 		}
 	}
 	aliasing(r)
+	concurrent(r)
 	// complete windows
 	for _, p := range []int{0, 1, 2, 62, 63, 64, 65, 66, 126, 127, 128} {
 		size := new(big.Int).Lsh(one, uint(128-p))
@@ -342,6 +439,8 @@ func replay(r *ev.Run, raw json.RawMessage) {
 	switch c.Fn {
 	case "aliasing":
 		aliasing(r)
+	case "concurrent":
+		concurrent(r)
 	case "offset", "offset-rev":
 		xb, _ := hex.DecodeString(c.X)
 		evalOffset(r, base, new(big.Int).SetBytes(xb), c.P, c.Fn == "offset-rev")
